@@ -44,7 +44,7 @@ StackOK(S, e) ==
   /\ e.stack = S.stack[c]
   /\ e.sval = [i \in 1..Len(S.stack[c]) |-> S.cont[S.stack[c][i]]]
 
-SizeOrInt(cont, b) == IF KindOf(b) = "int" THEN IntVal(b) ELSE SizeOf(cont, b)
+SizeOrInt(cont, b) == IF NumLike(b) THEN IntVal(b) ELSE SizeOf(cont, b)
 IdsOK(ids, b) == b \in SeqSet(ids) /\ \A i \in SeqSet(ids) : i \in Boxes /\ KindOf(i) = KindOf(b)
 \* other forwarded dunders: len, iter, [0], 7 in, +, hash, str, == -- computed on the object bound
 \* in the accessing context; RuntimeError (code RTE) for each of them where nothing is bound
